@@ -451,6 +451,12 @@ def main(argv=None):
                 vs[0]["clause"], vs[0]["input_class"], vs[0]["exc"], vs[0]["frame"], vs[0]["detail"][:600]))
             print("VIOLATION property=%s replay=%s" % (pid, path))
         return 1
+    if hasattr(mod, "health"):
+        # generator/driver health judged on the whole run (never a violation)
+        msg = mod.health(coverage["counters"], coverage)
+        if msg:
+            print("HARNESS-ERROR: " + msg)
+            return 2
     if coverage["distinct_nontrivial"] < 2:
         print("HARNESS-ERROR: generator produced fewer than 2 distinct non-trivial cases")
         return 2
